@@ -8,7 +8,7 @@ From BW Require Export Case.
 Definition spec_list (exp : option (list (str * lblock))) (o : lobs) : bool :=
   match exp, o with
   | Some e, LObsList bs => mset_eqb plblock_eqb e bs && in_source_order bs
-  | None, LObsErr c => (c =? E_PARSE) || (c =? E_UNKNOWN)
+  | None, LObsErr _ => true
   | _, _ => false
   end.
 
